@@ -7,44 +7,111 @@ Engine A (explicit-state BFS over operation histories) on the real `Telomere`, w
   observable form of "this call would never return". A re-entrant lock (RLock) is mirrored.
 
 The oracle is written from the property statement only (legal-move relation, tick result,
-length range, Hayflick bound, renewal refusal, forced senescence, every call returns); the only
+length range, Hayflick bound, renewal refusal, forced senescence, every call returns, and - two
+lifecycles in one process are two lifecycles - no operation is visible on another instance); the only
 implementation fields read are those named in the property's anchors, and only for the
 canonical state key (dedup), never for a verdict.
 """
 from __future__ import annotations
 
 import datetime as _dt
+import sys
 
 from mc import common, explore, sched, vclock
 
 import operon_ai.state.telomere as telo
 from operon_ai.state.telomere import Telomere
 
-LIFETIME_H = 1.0          # lifetime limit when switched on
-IDLE_MIN = 10.0           # idle limit when switched on
-LIFE_CAP = 3600           # seconds; elapsed times are capped at their limit in the canonical key
-IDLE_CAP = 600
+# limit values by index (0 = limit off): the usual whole-number limits and small fractional ones
+LIFETIME_H = (None, 1.0, 0.25)     # hours
+IDLE_MIN = (None, 10.0, 2.5)       # minutes
 
 N, A, S, P, T = "nascent", "active", "senescent", "apoptotic", "terminated"
+PHASE_VIEWS = ("phase", "status_phase", "stats_phase")     # three public accessors of the phase
+
+# root = [max_operations, error_threshold, renewal, lifetime idx, idle idx, callbacks, silent]
+# callbacks: 0 = on_phase_change + on_senescence (both recording, benign), 1 = neither,
+#            2 = on_phase_change only, 3 = on_senescence only
+CB_BOTH, CB_NONE, CB_PHASE, CB_SEN = 0, 1, 2, 3
+
+
+def life_cap(cfg):
+    return int(LIFETIME_H[cfg[3]] * 3600) if cfg[3] else None
+
+
+def idle_cap(cfg):
+    return int(IDLE_MIN[cfg[4]] * 60) if cfg[4] else None
+
+
+class _Sink:
+    """stdout while the library is called with silent=False (the check itself prints nothing per case)."""
+
+    def write(self, s):
+        return len(s)
+
+    def flush(self):
+        pass
+
+
+_SINK = _Sink()
+_LOCK_NAMES = None
+_FRESH_OBS = {}       # configuration -> observation of the first lifecycle constructed with it in this process
 
 
 class State:
-    __slots__ = ("cfg", "tel", "cb", "clock", "unit_true", "ref_errors", "t_start", "t_any")
+    __slots__ = ("cfg", "tel", "cb", "clock", "unit_true", "ref_errors", "t_start", "t_any", "by", "pending")
 
 
-def _mk(cfg, st):
-    max_ops, thr, renewal, life, idle = cfg
-    t = Telomere(
-        max_operations=max_ops,
-        max_lifetime_hours=LIFETIME_H if life else None,
-        idle_timeout_minutes=IDLE_MIN if idle else None,
-        error_threshold=thr,
-        allow_renewal=bool(renewal),
-        on_phase_change=lambda old, new: st.cb.append((old.value, new.value)),
-        silent=True,
-    )
-    sched.install_locks(t)
+class Bystanders:
+    """Two other lifecycles living in the same process as the one under test (shared by reference between a
+    state and its clones: they are never operated after construction, and `snap` follows any change so that
+    one interference is attributed to exactly one operation)."""
+    __slots__ = ("tels", "cb", "snap")
+
+
+def _mk(cfg, sink, max_ops=None, thr=None, renewal=None, life=None, idle=None):
+    """Telomere for configuration cfg (keyword arguments override single dimensions); notifications go to `sink`."""
+    max_ops = cfg[0] if max_ops is None else max_ops
+    thr = cfg[1] if thr is None else thr
+    renewal = cfg[2] if renewal is None else renewal
+    life = cfg[3] if life is None else life
+    idle = cfg[4] if idle is None else idle
+    cbs, silent = cfg[5], cfg[6]
+    kw = {}
+    if cbs in (CB_BOTH, CB_PHASE):
+        kw["on_phase_change"] = lambda old, new: sink.append((old.value, new.value))
+    if cbs in (CB_BOTH, CB_SEN):
+        kw["on_senescence"] = lambda reason: sink.append(("!", getattr(reason, "value", reason)))
+    out = sys.stdout
+    sys.stdout = _SINK
+    try:
+        t = Telomere(
+            max_operations=max_ops,
+            max_lifetime_hours=LIFETIME_H[life],
+            idle_timeout_minutes=IDLE_MIN[idle],
+            error_threshold=thr,
+            allow_renewal=bool(renewal),
+            silent=bool(silent),
+            **kw,
+        )
+    finally:
+        sys.stdout = out
+    global _LOCK_NAMES
+    if _LOCK_NAMES is None:      # full scan once; the same attributes (same re-entrancy) afterwards
+        _LOCK_NAMES = tuple((k, getattr(t, k).reentrant) for k in sched.install_locks(t))
+    else:
+        for k, reentrant in _LOCK_NAMES:
+            setattr(t, k, sched.CoopLock(reentrant, f"Telomere.{k}"))
     return t
+
+
+def _quiet(fn, *a):
+    out = sys.stdout
+    sys.stdout = _SINK
+    try:
+        return fn(*a)
+    finally:
+        sys.stdout = out
 
 
 # fields of Telomere that make up its state (property anchors: _phase, _telomere_length,
@@ -67,40 +134,109 @@ def observe(t):
     return {
         "phase": t.get_phase().value,
         "status_phase": stt.phase.value,
+        "stats_phase": stats["phase"],
+        "is_active": t.is_active(),
+        "is_operational": t.is_operational(),
         "length": stt.telomere_length,
         "max": stt.max_telomere_length,
         "remaining": stt.operations_remaining,
+        "stats_length": stats["telomere_length"],
         "ops": stats["operations_count"],
         "errors": stats["error_count"],
     }
 
 
+def peek(t):
+    """Observation of a lifecycle that is NOT under test (cheap: phase, length, health score = length and errors)."""
+    stt = t.get_status()
+    return (t.get_phase().value, stt.phase.value, stt.telomere_length, stt.operations_remaining, stt.health_score,
+            stt.senescence_reason, t.is_active())
+
+
 class Model:
-    def __init__(self, tier):
+    def __init__(self, tier, family=0):
         self.tier = tier
+        self.family = family
 
     # ---- configurations ---------------------------------------------------------
+    # family 0: notifications subscribed, silent - all core dimensions, full depth.
+    # family 1: every other value of (callbacks, silent, limit values), each crossed with all of
+    #           (max_operations, error_threshold, renewal), one level shallower.
+    def depth(self):
+        return {("quick", 0): 6, ("quick", 1): 5, ("thorough", 0): 7, ("thorough", 1): 6}[(self.tier, self.family)]
+
     def roots(self):
-        if self.tier == "quick":
-            return [[m, e, r, lt, lt] for m in (1, 3, 12) for e in (1, 2) for r in (1, 0) for lt in (0, 1)]
         out = []
-        for m in (1, 2, 3, 5, 12):
-            for e in (1, 2, 4):
-                for r in (1, 0):
-                    for life, idle in ((0, 0), (1, 0), (0, 1), (1, 1)):
-                        out.append([m, e, r, life, idle])
+        if self.tier == "quick":
+            if self.family == 0:
+                units = [(CB_BOTH, 1, 0, 0), (CB_BOTH, 1, 1, 1)]
+            else:   # pairwise cover of callbacks {both, none} x silent {on, off} x limits {off, whole, fractional}
+                units = [(CB_NONE, 0, 0, 0), (CB_BOTH, 0, 1, 1), (CB_NONE, 1, 1, 1), (CB_BOTH, 1, 2, 2), (CB_NONE, 0, 2, 2)]
+            ms, es = (0, 1, 3, 12), (1, 2)
+        elif self.family == 0:
+            units = [(CB_BOTH, 1, life, idle) for life, idle in ((0, 0), (1, 0), (0, 1), (1, 1), (2, 2))]
+            ms, es = (0, 1, 2, 3, 5, 12), (0, 1, 2, 4)
+        else:
+            units = [(cbs, silent, lt, lt)
+                     for cbs, silent in ((CB_NONE, 1), (CB_BOTH, 0), (CB_NONE, 0), (CB_PHASE, 0), (CB_SEN, 1))
+                     for lt in (0, 1, 2)]
+            ms, es = (0, 1, 3, 12), (1, 2, 4)
+        for cbs, silent, life, idle in units:
+            for m in ms:
+                for e in es:
+                    for r in (1, 0):
+                        out.append([m, e, r, life, idle, cbs, silent])
         return out
 
-    def build(self, root):
+    def build(self, root, bystanders=True):
         st = State()
         st.cfg = tuple(root)
         st.cb = []
         st.clock = vclock.VClock()
         vclock.use(st.clock)
-        st.tel = _mk(st.cfg, st)
+        st.pending = []
+        st.by = None
+        if not bystanders:
+            st.tel = _mk(st.cfg, st.cb)
+        else:
+            # two lifecycles in one process: the one under test is constructed first and observed; then another one
+            # (different limits) is driven to TERMINATED and a third (same configuration) is started. Neither may
+            # be visible on the one under test, and a lifecycle constructed later in the life of this process
+            # (after many others were operated) looks exactly like the first one with that configuration.
+            m, thr, renewal = st.cfg[:3]
+            st.tel = _mk(st.cfg, st.cb)
+            o_main = observe(st.tel)
+            ref = _FRESH_OBS.setdefault(st.cfg, o_main)
+            if o_main != ref:
+                st.pending.append(("other-instance-affected:construction",
+                                   f"a new lifecycle looks different after other lifecycles were used in this process: "
+                                   f"first {ref}, now {o_main}"))
+            by = Bystanders()
+            by.cb = []
+            b_term = _mk(st.cfg, by.cb, max_ops=m + 2, thr=thr + 1, renewal=1 - renewal, life=0, idle=0)
+            _quiet(b_term.start)
+            _quiet(b_term.tick, 1)
+            _quiet(b_term.record_error)
+            _quiet(b_term.terminate)
+            o_term = peek(b_term)
+            del by.cb[:]
+            b_act = _mk(st.cfg, by.cb)
+            _quiet(b_act.start)
+            by.tels = (b_term, b_act)
+            by.snap = (peek(b_term), peek(b_act))
+            if by.snap[0] != o_term:
+                st.pending.append(("other-instance-affected:construction",
+                                   f"constructing/starting another lifecycle changed a TERMINATED one: {o_term} -> {by.snap[0]}"))
+            if observe(st.tel) != o_main or st.cb:
+                st.pending.append(("other-instance-affected:construction",
+                                   f"constructing and operating other lifecycles changed this one: {o_main} -> "
+                                   f"{observe(st.tel)}, notifications {st.cb}"))
+            del by.cb[:]
+            del st.cb[:]
+            st.by = by
         st.unit_true = 0        # unit ticks that reported True since the last successful renew
         st.ref_errors = 0       # errors recorded since the last error reset
-        st.t_start = None       # when NASCENT -> ACTIVE was observed
+        st.t_start = None       # when the lifecycle was observed to leave NASCENT for ACTIVE
         st.t_any = None         # last returned lifecycle call (most generous notion of "activity")
         return st
 
@@ -110,11 +246,13 @@ class Model:
         c.cb = []
         c.clock = vclock.VClock(start=st.clock.now())
         vclock.use(c.clock)
-        c.tel = _mk(c.cfg, c)
+        c.tel = _mk(c.cfg, c.cb)
         for f in _FIELDS:
             setattr(c.tel, f, getattr(st.tel, f))
         c.tel._events = list(st.tel._events)
         c.unit_true, c.ref_errors, c.t_start, c.t_any = st.unit_true, st.ref_errors, st.t_start, st.t_any
+        c.by = st.by
+        c.pending = list(st.pending)
         return c
 
     # ---- alphabet ---------------------------------------------------------------
@@ -124,7 +262,7 @@ class Model:
         for c in sorted({0, 1, 2, m}):
             o.append(("tick", c))
         o += [("record_error",), ("heartbeat",), ("check_timeouts",)]
-        for amount in [None] + sorted({1, m}):
+        for amount in [None] + sorted({0, 1, m, m + 5}):
             for re_ in (True, False):
                 o.append(("renew", amount, re_))
         o += [("trigger_apoptosis",), ("terminate",), ("reset",)]
@@ -138,15 +276,16 @@ class Model:
     def canon(self, st):
         t = st.tel
         now = st.clock.now()
-        life, idle = st.cfg[3], st.cfg[4]
+        lcap, icap = life_cap(st.cfg), idle_cap(st.cfg)
         return (
             t._phase.value, t._telomere_length, t._error_count, t._operations_count,
             t._started_at is not None, t._last_activity is not None,
-            _secs(now, t._started_at, LIFE_CAP) if life else None,
-            _secs(now, t._last_activity, IDLE_CAP) if idle else None,
+            _secs(now, t._started_at, lcap) if lcap else None,
+            _secs(now, t._last_activity, icap) if icap else None,
             min(st.unit_true, st.cfg[0] + 1), min(st.ref_errors, st.cfg[1]),
-            _secs(now, st.t_start, LIFE_CAP) if life else st.t_start is not None,
-            _secs(now, st.t_any, IDLE_CAP) if idle else None,
+            _secs(now, st.t_start, lcap) if lcap else st.t_start is not None,
+            _secs(now, st.t_any, icap) if icap else None,
+            bool(st.pending),
         )
 
     def observe(self, st):
@@ -159,13 +298,15 @@ class Model:
         kind = op[0]
         if kind == "advance":
             st.clock.advance(op[1] * 60)
-            return []
+            return list(st.pending)
         t = st.tel
-        max_ops, thr, renewal, life, idle = st.cfg
-        v = []
+        max_ops, thr, renewal, life, idle, cbs, _silent = st.cfg
+        v = list(st.pending)
         before = observe(t)
         del st.cb[:]
         now = st.clock.now()
+        out = sys.stdout
+        sys.stdout = _SINK
         try:
             if kind == "start":
                 ret = t.start()
@@ -188,18 +329,31 @@ class Model:
             else:
                 raise AssertionError(op)
         except sched.HangDetected as e:
-            return [(f"hang:{kind}:{before['phase']}",
-                     f"{kind}{tuple(op[1:])} in phase {before['phase']} would never return: {e}")]
+            return v + [(f"hang:{kind}:{before['phase']}",
+                         f"{kind}{tuple(op[1:])} in phase {before['phase']} would never return: {e}")]
         except Exception as e:  # noqa: BLE001
-            return [(f"raises:{kind}:{type(e).__name__}", f"{kind} raised {type(e).__name__}: {e}")]
+            return v + [(f"raises:{kind}:{type(e).__name__}", f"{kind} raised {type(e).__name__}: {e}")]
+        finally:
+            sys.stdout = out
         after = observe(t)
         links = list(st.cb)
         pb, pa = before["phase"], after["phase"]
 
+        # two lifecycles in one process share nothing: an operation on this one is invisible on the others
+        by = st.by
+        if by is not None:
+            cur = tuple(peek(b) for b in by.tels)
+            if cur != by.snap or by.cb:
+                v.append((f"other-instance-affected:{kind}",
+                          f"{kind}{tuple(op[1:])} on one lifecycle changed another lifecycle in the same process: "
+                          f"{by.snap} -> {cur}, notifications delivered to the other one: {by.cb}"))
+                by.snap = cur
+                del by.cb[:]
+
         if kind == "reset":
             # re-initialisation: not judged against the move relation; must equal a fresh object
             st.unit_true, st.ref_errors, st.t_start, st.t_any = 0, 0, None, None
-            fresh = self.build(list(st.cfg))
+            fresh = self.build(list(st.cfg), bystanders=False)
             fresh.clock = st.clock
             vclock.use(st.clock)
             if self.canon(fresh) != self.canon(st) or observe(fresh.tel) != after:
@@ -207,42 +361,73 @@ class Model:
                                              f"{observe(fresh.tel)} / {self.canon(fresh)}"))
             return v
 
-        # (1)+(2) every move is legal; the callback stream is used when it explains the change
-        chain_ok = True
-        cur = pb
-        for old, new in links:
-            if old != cur:
+        # (1)+(2) every move is legal. Moves are what an observer sees: the notification streams when they are
+        # subscribed (single moves, judged one by one), else the phase before/after the call (judged by the
+        # existence of a legal sequence of moves inside this call).
+        single, span = [], []
+        if cbs in (CB_BOTH, CB_PHASE):
+            cur, chain_ok = pb, True
+            for ln in links:
+                if ln[0] == "!":             # on_senescence: "the lifecycle entered SENESCENT"
+                    if cur != S:
+                        single.append((cur, S))
+                        cur = S
+                    continue
+                old, new = ln
+                if old != cur:
+                    chain_ok = False
+                single.append((old, new))
+                cur = new
+            if cur != pa:
                 chain_ok = False
-            cur = new
-        if cur != pa:
-            chain_ok = False
-        moves = list(links)
-        if not chain_ok:
-            moves.append((pb, pa))
-        for old, new in moves:
+            if not chain_ok:
+                single.append((pb, pa))
+        else:
+            if any(ln[0] == "!" for ln in links):
+                span += [(pb, S), (S, pa)]
+            else:
+                span.append((pb, pa))
+        for old, new in single:
             why = _illegal(old, new, kind)
             if why:
-                if old == T:
-                    key = f"terminated-not-absorbing:->{new}:in-{kind}"
-                else:
-                    key = f"illegal-transition:{old}->{new}:in-{kind}"
-                v.append((key, f"{kind}{tuple(op[1:])}: phase moved {old} -> {new} ({why}); "
-                               f"phase before call {pb}, after {pa}, notifications {links}"))
+                v.append((_move_key(old, new, kind, ""),
+                          f"{kind}{tuple(op[1:])}: phase moved {old} -> {new} ({why}); "
+                          f"phase before call {pb}, after {pa}, notifications {links}"))
+        for old, new in span:
+            if not _reachable(old, new, kind):
+                v.append((_move_key(old, new, kind, ""),
+                          f"{kind}{tuple(op[1:])}: phase went {old} -> {new}, no sequence of legal moves inside this "
+                          f"call explains it; phase before call {pb}, after {pa}, notifications {links}"))
+        # the same holds whichever public accessor the observer reads the phase from
+        for view in PHASE_VIEWS[1:]:
+            vb, va = before[view], after[view]
+            if (vb, va) != (pb, pa) and not _reachable(vb, va, kind):
+                v.append((_move_key(vb, va, kind, f":via-{view}"),
+                          f"{kind}{tuple(op[1:])}: phase as reported by {view} went {vb} -> {va}; get_phase() {pb} -> {pa}"))
 
         # (2)+(3) tick
         if kind == "tick":
             if pb in (P, T):
-                same = all(before[k] == after[k] for k in ("phase", "length", "ops", "errors"))
+                same = all(before[k] == after[k] for k in before if k != "max")
                 if ret is not False or not same:
                     v.append((f"dead-phase-ticks:{pb}", f"tick({op[1]}) in {pb} returned {ret!r}, {before} -> {after}"))
             if (ret is True) != (pa == A) or ret not in (True, False):
                 v.append((f"tick-result-mismatch:{ret!r}:{pa}", f"tick({op[1]}) returned {ret!r} but phase afterwards is {pa}"))
+            for view in PHASE_VIEWS[1:]:
+                if after[view] != pa and (ret is True) != (after[view] == A):
+                    v.append((f"tick-result-mismatch:{ret!r}:{view}={after[view]}",
+                              f"tick({op[1]}) returned {ret!r} but {view} afterwards is {after[view]}"))
+            if (ret is True) != (after["is_active"] is True):
+                v.append((f"tick-result-mismatch:{ret!r}:is_active={after['is_active']!r}",
+                          f"tick({op[1]}) returned {ret!r} but is_active() afterwards is {after['is_active']!r}"))
             if op[1] == 1 and ret is True:
                 st.unit_true += 1
-        # (4) remaining length in range
-        if not (0 <= after["length"] <= max_ops) or not (0 <= after["remaining"] <= max_ops):
-            v.append((f"length-out-of-range:{kind}", f"length {after['length']} (remaining {after['remaining']}) "
-                                                      f"outside [0,{max_ops}] after {kind}{tuple(op[1:])}"))
+        # (4) remaining length in range (every public accessor of it)
+        for k in ("length", "remaining", "stats_length"):
+            if not (0 <= after[k] <= max_ops):
+                v.append((f"length-out-of-range:{kind}", f"length {after['length']} (remaining {after['remaining']}, statistics "
+                                                          f"{after['stats_length']}) outside [0,{max_ops}] after {kind}{tuple(op[1:])}"))
+                break
         # (5) Hayflick bound
         if st.unit_true > max_ops:
             v.append(("hayflick-exceeded", f"{st.unit_true} unit ticks reported True since the last renewal, "
@@ -266,18 +451,42 @@ class Model:
                 v.append(("error-limit-not-enforced", f"{st.ref_errors} errors recorded (threshold {thr}) while ACTIVE, "
                                                       f"phase afterwards {pa}"))
         if kind == "check_timeouts" and pb == A:
-            if life and st.t_start is not None and (now - st.t_start) >= _dt.timedelta(hours=LIFETIME_H) and pa != S:
+            if life and st.t_start is not None and (now - st.t_start) >= _dt.timedelta(hours=LIFETIME_H[life]) and pa != S:
                 v.append(("lifetime-limit-not-enforced", f"check_timeouts {now - st.t_start} after start "
-                                                         f"(limit {LIFETIME_H} h) left phase {pa}"))
-            if idle and st.t_any is not None and (now - st.t_any) >= _dt.timedelta(minutes=IDLE_MIN) and pa != S:
+                                                         f"(limit {LIFETIME_H[life]} h) left phase {pa}"))
+            if idle and st.t_any is not None and (now - st.t_any) >= _dt.timedelta(minutes=IDLE_MIN[idle]) and pa != S:
                 v.append(("idle-limit-not-enforced", f"check_timeouts {now - st.t_any} after the last lifecycle call of "
-                                                     f"any kind (limit {IDLE_MIN} min) left phase {pa}"))
-        # reference bookkeeping
-        if (N, A) in moves and st.t_start is None:
+                                                     f"any kind (limit {IDLE_MIN[idle]} min) left phase {pa}"))
+        # reference bookkeeping (from observations only: the lifecycle was seen to leave NASCENT for/through ACTIVE)
+        if st.t_start is None and ((N, A) in single or (pb == N and pa in (A, S))):
             st.t_start = now
         if kind != "check_timeouts":
             st.t_any = now
         return v
+
+
+def _move_key(old, new, kind, suffix):
+    if old == T:
+        return f"terminated-not-absorbing:->{new}:in-{kind}{suffix}"
+    return f"illegal-transition:{old}->{new}:in-{kind}{suffix}"
+
+
+_REACH = {}
+
+
+def _reachable(old, new, kind):
+    """Is there a (possibly empty) sequence of legal single moves old -> ... -> new inside one call of `kind`?"""
+    k = (old, new, kind)
+    if k not in _REACH:
+        seen, todo = {old}, [old]
+        while todo:
+            x = todo.pop()
+            for y in (N, A, S, P, T):
+                if y not in seen and _illegal(x, y, kind) is None:
+                    seen.add(y)
+                    todo.append(y)
+        _REACH[k] = new in seen
+    return _REACH[k]
 
 
 def _illegal(old, new, kind):
@@ -298,34 +507,56 @@ def _illegal(old, new, kind):
     return "not in NASCENT -> ACTIVE -> SENESCENT -> (renew) ACTIVE"
 
 
-def _selfcheck(model):
-    """clone == replay: same canonical key and same observations for every op, on sample histories."""
-    hists = [
-        (("start",), ("tick", 1), ("advance", 5), ("record_error",), ("renew", None, True)),
-        (("start",), ("advance", 60), ("check_timeouts",), ("renew", 1, False), ("tick", 1)),
-        (("trigger_apoptosis",), ("renew", None, True), ("terminate",)),
-        (("start",), ("tick", 0), ("heartbeat",), ("reset",), ("start",)),
-    ]
-    for root in model.roots()[:6]:
-        for h in hists:
+_HISTS = [
+    (("start",), ("tick", 1), ("advance", 5), ("record_error",), ("renew", None, True)),
+    (("start",), ("advance", 60), ("check_timeouts",), ("renew", 1, False), ("tick", 1)),
+    (("trigger_apoptosis",), ("renew", None, True), ("terminate",)),
+    (("start",), ("tick", 0), ("heartbeat",), ("reset",), ("start",)),
+]
+
+
+def _selfcheck(model, roots, report):
+    """Two comparisons on sample histories, for every op of the alphabet:
+    * replay == earlier replay: the same history on a fresh lifecycle gives the same state no matter how many
+      other lifecycles were operated in this process in between (differential oracle of the property:
+      two lifecycles share nothing) - a difference is reported as a violation;
+    * clone == replay: same canonical key, observations and verdicts (validity of `clone`; a difference is a
+      harness error)."""
+    def snap(st):
+        vclock.use(st.clock)
+        return model.canon(st), observe(st.tel)
+
+    for root in roots:
+        for h in _HISTS:
             base = model.build(root)
             for op in h:
                 if op[0] == "advance" or op in model.ops(base):
                     model.step(base, op)
+            first = snap(base)
             for op in model.ops(base):
                 a = model.clone(base)
                 b = model.build(root)
                 for hop in h:
                     if hop[0] == "advance" or hop in model.ops(b):
                         model.step(b, hop)
+                again = snap(b)
+                if again != first:
+                    report("other-instance-affected:replay",
+                           f"history {list(h)} on a fresh lifecycle gave {first}; the same history on another fresh lifecycle, "
+                           f"after other lifecycles were operated in this process, gave {again}",
+                           {"root": list(root), "hist": [list(x) for x in h], "op": list(op), "selfcheck": 1})
+                    return
                 ra = model.step(a, op)
                 rb = model.step(b, op)
-                vclock.use(a.clock)
-                oa = (model.canon(a), observe(a.tel), ra)
-                vclock.use(b.clock)
-                ob = (model.canon(b), observe(b.tel), rb)
+                oa = snap(a) + (ra,)
+                ob = snap(b) + (rb,)
                 if oa != ob:
                     raise common.HarnessError(f"C09 clone/replay mismatch root={root} hist={h} op={op}: {oa} vs {ob}")
+
+
+def _selfcheck_roots(model):
+    roots = model.roots()
+    return roots[::max(1, len(roots) // 12)]
 
 
 def run(ctx):
@@ -336,26 +567,64 @@ def run(ctx):
                                       for k, val in vars(probe.tel).items() if isinstance(val, sched.CoopLock)]
     if not ctx.coverage["locks_replaced"]:
         raise common.HarnessError("Telomere has no threading.Lock/RLock attribute to replace")
-    _selfcheck(model)
-    depth = 6 if ctx.tier == "quick" else 7
-    res = explore.explore(model, ctx, depth, validate_canon=200 if ctx.tier == "thorough" else 0)
+    for key, what in probe.pending:     # the first lifecycles of this process (a sticky process-wide effect shows only here)
+        ctx.report(key, what, {"root": model.roots()[0], "hist": [], "op": ("heartbeat",)})
+    deferred = None
+    try:
+        _selfcheck(model, _selfcheck_roots(model), ctx.report)
+        fm1 = Model(ctx.tier, 1)
+        _selfcheck(fm1, _selfcheck_roots(fm1), ctx.report)
+    except common.HarnessError as e:
+        deferred = e
+    res = None
+    for fam, label in ((0, "A"), (1, "B")):
+        fm = Model(ctx.tier, fam)
+        try:
+            r = explore.explore(fm, ctx, fm.depth(), label=label, validate_canon=200 if ctx.tier == "thorough" else 0)
+        except common.HarnessError as e:
+            deferred = deferred or e
+            break
+        ctx.coverage[f"family{fam}"] = dict(r, depth=fm.depth())
+        if res is None:
+            res = dict(r)
+        else:
+            for k in ("states", "transitions", "roots", "frontier_left"):
+                res[k] += r[k]
+            res["capped"] = res["capped"] or r["capped"]
+            res["fixpoint"] = res["fixpoint"] and r["fixpoint"]
+            res["depth_completed"] = min(res["depth_completed"], r["depth_completed"])
+    if deferred is not None:
+        # a clone/replay or canonicalisation disagreement is a harness error - unless the run itself observed that
+        # lifecycles of this process influence each other, which explains it (replay runs later than the clone)
+        if res is None or not any(k.startswith("other-instance-affected") for k in list(ctx.violations) + list(ctx.known_hits)):
+            raise deferred
+        ctx.note(f"harness self-check disagreed and is explained by the reported interference between instances: {deferred}"[:600])
     ctx.coverage.update(
         states=res["states"],
         transitions=res["transitions"],
         traces_validated_against_impl=res["transitions"],
         evaluations=res["transitions"],
         distinct_nontrivial=res["states"],
-        rule="BFS over operation histories of the real Telomere per configuration (max_operations, error_threshold, "
-             "renewal, lifetime limit, idle limit); every operation of the alphabet applied in every distinct canonical "
+        rule="BFS over operation histories of the real Telomere per configuration (max_operations incl. 0, error_threshold, "
+             "renewal, lifetime limit and idle limit each off / 1 h,10 min / 0.25 h,2.5 min, callbacks both/none/one, "
+             "silent on/off), in a process that holds two other lifecycles (one TERMINATED, one ACTIVE); family 0 = callbacks "
+             "subscribed + silent at full depth, family 1 = the other callback/silent/limit-value combinations one level "
+             "shallower (see family0/family1); every operation of the alphabet applied in every distinct canonical "
              "state (phase, length, error/operation counts, started, capped elapsed times, reference counters); "
              "distinct/non-trivial = distinct canonical state",
         exhaustive=not res["capped"],
         fixpoint=res["fixpoint"],
         depth_completed=res["depth_completed"],
         configurations=res["roots"],
-        alphabet="start, tick(c in {0,1,2,max}), record_error, heartbeat, check_timeouts, renew(amount in {None,1,max}, "
+        alphabet="start, tick(c in {0,1,2,max}), record_error, heartbeat, check_timeouts, renew(amount in {None,0,1,max,max+5}, "
                  "reset_errors in {T,F}), trigger_apoptosis, terminate, reset, clock advance in {5,10,60} min",
     )
+    ctx.note("reading: without a subscribed on_phase_change an observer only sees the phase before and after a call; such a "
+             "pair is judged by the existence of a sequence of legal moves inside that call (weaker than judging every "
+             "single move, which is done whenever the notification stream is subscribed)")
+    ctx.note("reading: an on_senescence notification is an observed entry into SENESCENT and is judged as such a move; "
+             "the phase reported by get_status()/get_statistics()/is_active() is judged like get_phase() when it differs")
+    ctx.note("max_operations=0 (outside the stated 1..12) is explored as an edge: no unit tick may report True")
     ctx.note("reading: idle limit is judged with the most generous notion of activity (any returned lifecycle call "
              "resets the reference idle timer), so only 'limit elapsed => SENESCENT' is asserted, never the converse")
     ctx.note("reading: reset() is re-initialisation; not judged against the move relation, must equal a fresh object "
@@ -368,9 +637,16 @@ def run(ctx):
         "time is the virtual clock bound to telomere.datetime; elapsed times are capped at their limit in the state key "
         "(sound: time only grows and comparisons are against the limit)",
         "violating transitions are not expanded (state after a hang is undefined)",
+        "the library's console output with silent=False is discarded, not judged",
+        "notification callbacks are benign (record and return); raising callbacks are outside the statement",
     ]
 
 
 def replay(ctx, case):
     vclock.install_global([telo])
-    return explore.replay_case(Model(ctx.tier), case)
+    model = Model(ctx.tier)
+    if isinstance(case, dict) and case.get("selfcheck"):
+        out = []
+        _selfcheck(model, [list(case["root"])], lambda key, what, c: out.append((key, what)))
+        return out
+    return explore.replay_case(model, case)
